@@ -448,16 +448,27 @@ impl<'a> Tr<'a> {
                 _ => Err(unsupported(p, "literal pattern that is not an integer or bool")),
             },
             Pat::Or(o) => {
+                // every alternative must bind the same variables; they get the same Coq names
+                let saved = self.counter.clone();
                 let mut parts = vec![];
-                let mut envs: Vec<Env> = vec![];
+                let mut first: Option<Env> = None;
                 for c in o.cases.iter() {
+                    self.counter = saved.clone();
                     let mut e2 = env.clone();
                     parts.push(self.bind_pat(c, ty, &mut e2)?);
-                    envs.push(e2);
+                    match &first {
+                        None => first = Some(e2),
+                        Some(f) => {
+                            let a: Vec<(&String, &String)> = f.vars.iter().map(|(n, v)| (n, &v.coq)).collect();
+                            let b: Vec<(&String, &String)> = e2.vars.iter().map(|(n, v)| (n, &v.coq)).collect();
+                            if a != b {
+                                return Err(unsupported(p, "or-pattern whose alternatives bind different variables"));
+                            }
+                        }
+                    }
                 }
-                if envs.iter().any(|e| e.vars.len() != env.vars.len()) {
-                    return Err(unsupported(p, "or-pattern that binds variables"));
-                }
+                // the counter now reflects one alternative's bindings
+                *env = first.unwrap();
                 Ok(format!("({})", parts.join(" | ")))
             }
             Pat::Path(pp) => self.path_pattern(&pp.path, ty, p),
